@@ -60,7 +60,7 @@ def same(a, b):
 @st.composite
 def spelling_case(draw):
     L = draw(st.sampled_from(shipped.LIBS))
-    w = dict(WEIGHTS[L], special=5, polycyclic=1)
+    w = dict(WEIGHTS[L], special=5, polycyclic=3 if L in ('BensonGA', 'PPY') else 1)
     w['witness' if L not in ('BensonGA', 'PPY') else 'witness-gas'] = 4
     w['large' if L not in ('BensonGA', 'PPY') else 'large-gas'] = 2
     smi = draw(molgen.mixed(w, metal='Ru' if L == 'XieGA2022' else 'Pt', max_heavy=draw(st.sampled_from([5, 8, 12, 20]))))
@@ -181,6 +181,15 @@ def check_perms(ctx, case):
                 break
 
 
+def enum_polycyclic(tier):
+    """every molecule of the polycyclic pool (spiro, fused, bridged, several separate rings) in many atom orders: ring
+    perception lists rings in an order that follows the atom numbering"""
+    for L in ('BensonGA', 'PPY', 'GRWSurface2018'):
+        for k, smi in enumerate(molgen.POLYCYCLIC):
+            for rep in range(1 if tier == 'quick' else 6):
+                yield dict(kind='spellings', lib=L, smiles=smi, seed=1000 * rep + k, n=20)
+
+
 def check_any(ctx, case):
     return {'spellings': check_spellings, 'perms': check_perms}[case['kind']](ctx, case)
 
@@ -188,4 +197,5 @@ def check_any(ctx, case):
 FAMILIES = [
     Family('spellings', check_any, strategy=lambda tier: spelling_case(), n=(800, 32000)),
     Family('exhaustive-permutations', check_any, enumerate=enum_perms),
+    Family('polycyclic-spellings', check_any, enumerate=enum_polycyclic),
 ]
